@@ -86,7 +86,13 @@ func init() {
 		if !ok || !fc.Opts.Expand || !strings.Contains(fail, "no such document") {
 			return false
 		}
-		return specExpandFails(fc)
+		// whether spec.ExpandSpec trips depends on map iteration order (about one run in two on the witness)
+		for i := 0; i < 40; i++ {
+			if specExpandFails(fc) {
+				return true
+			}
+		}
+		return false
 	}
 }
 
